@@ -12,7 +12,7 @@ func init() {
 		ID:         "C18",
 		Level:      "other",
 		Technique:  "atomic-only access discipline on lazily published locations (runtime and all generated lazy getters), publish-by-CAS of a freshly built object, atomic index publication (static)",
-		Explain:    "Decides structural necessary conditions of race-free concurrent readers of a lazily decoded message: (1) wherever the fast-path code tests whether a lazy field is still undecoded (conditions conjoined with f.isLazy) the field's pointer slot is read atomically; (2) lazyUnmarshal decodes into a fresh object and publishes it into the message only with the compare-and-swap AtomicSetPointerIfNil, after all decoding, and never stores into the message otherwise (so all readers load the single winning instance); (3) the lazy index pointer of protolazy is read and written only through atomicLoadIndex/atomicStoreIndex; (4) every generated getter of a lazy field (identified by its UnmarshalField call) follows Present → AtomicCheckPointerIsNil → UnmarshalField → AtomicLoadPointer and no generated read-only method reads such a hidden field directly; (5) the runtime helpers behind those calls (Export.AtomicCheckPointerIsNil/AtomicLoadPointer/AtomicSetPointerIfNil, pointer.Atomic*) are implemented with sync/atomic operations only.",
+		Explain:    "Decides structural necessary conditions of race-free concurrent readers of a lazily decoded message: (1) wherever the fast-path code tests whether a lazy field is still undecoded (conditions conjoined with f.isLazy) the field's pointer slot is read atomically; (2) lazyUnmarshal decodes into a fresh object and publishes it into the message only with the compare-and-swap AtomicSetPointerIfNil, after all decoding, and never stores into the message otherwise (so all readers load the single winning instance); (3) the lazy index pointer of protolazy is read and written only through atomicLoadIndex/atomicStoreIndex and a loaded (published) index is never sorted or written in place; lazyUnmarshal never returns its private decoded object (readers re-load the winner); (4) every generated getter of a lazy field (identified by its UnmarshalField call) follows Present → AtomicCheckPointerIsNil → UnmarshalField → AtomicLoadPointer and no generated read-only method reads such a hidden field directly; (5) the runtime helpers behind those calls (Export.AtomicCheckPointerIsNil/AtomicLoadPointer/AtomicSetPointerIfNil, pointer.Atomic*) are implemented with sync/atomic operations only.",
 		NotCovered: "races on non-lazy state, presence-bit word updates by writers, the race-detector shadow hooks (-race build), equality of concurrent and sequential results on values; memory-model subtleties beyond all accesses being atomic.",
 		Quick:      all("./internal/impl", "./internal/protolazy", "./internal/testprotos/lazy/...", "./internal/testprotos/testeditions/testeditions_opaque", "./internal/testprotos/mixed"),
 		Thorough:   all("./..."),
@@ -204,16 +204,38 @@ func (c *Ctx) ruleLazyAtomic(rule string) {
 			defs := localDefs(fi.Decl.Body, info)
 			fresh := false
 			var fpObj types.Object
+			derived := map[types.Object]bool{} // locals that denote (part of) the freshly allocated object
 			if len(cas[0].Args) == 1 {
-				if rid := rootIdentThroughCalls(cas[0].Args[0]); rid != nil {
-					fpObj = objOf(info, rid)
-					for _, d := range defs[fpObj] {
-						if containsCall(info, d.rhs, "reflect.New") != nil {
-							fresh = true
+				rid := rootIdentThroughCalls(cas[0].Args[0])
+				for depth := 0; rid != nil && depth < 4; depth++ {
+					o := objOf(info, rid)
+					derived[o] = true
+					ds := defs[o]
+					if len(ds) != 1 {
+						break
+					}
+					if containsCall(info, ds[0].rhs, "reflect.New") != nil {
+						fresh = true
+						fpObj = o
+						break
+					}
+					rid = rootIdentThroughCalls(ds[0].rhs)
+				}
+			}
+			// the private copy must not be handed to callers: only the published (winning) pointer may be used,
+			// and that is obtained by an atomic re-load
+			leak := ""
+			walk(fi.Decl.Body, func(x ast.Node) bool {
+				if rs, ok := x.(*ast.ReturnStmt); ok {
+					for _, r := range rs.Results {
+						if rid := rootIdentThroughCalls(r); rid != nil && derived[objOf(info, rid)] {
+							leak = P.Pos(rs)
 						}
 					}
 				}
-			}
+				return true
+			})
+			R.Check(leak == "", rule, fi.Key+" no private copy escapes", P.Pos(fi.Decl), "the locally decoded object is never returned", "lazyUnmarshal returns its own decoded object at "+leak+": a reader that lost the compare-and-swap would use an unpublished private copy instead of the shared instance")
 			R.Check(fresh, rule, fi.Key+" fresh object", P.Pos(cas[0]), "publishes an object allocated in this call", "the published pointer is not a freshly allocated object: two readers decoding concurrently would write the same memory")
 			// decode calls target the fresh object and precede the CAS
 			sp, _ := g.posOf(cas[0])
@@ -267,6 +289,66 @@ func (c *Ctx) ruleLazyAtomic(rule string) {
 		}
 		if k == 0 {
 			R.Unk(rule, "protolazy index", "", "no access to the lazy index found")
+		}
+		// readers never modify a published index in place
+		for _, fi := range P.FuncsIn("internal/protolazy") {
+			if fi.Decl.Body == nil || containsCall(fi.Info(), fi.Decl.Body, "internal/protolazy.atomicLoadIndex") == nil {
+				continue
+			}
+			info := fi.Info()
+			defs := localDefs(fi.Decl.Body, info)
+			loaded := map[types.Object]bool{}
+			for o, ds := range defs {
+				for _, d := range ds {
+					if containsCall(info, d.rhs, "internal/protolazy.atomicLoadIndex") != nil {
+						loaded[o] = true
+					}
+				}
+			}
+			// one more hop: x := *index / entries := (*index)[…]
+			for o, ds := range defs {
+				for _, d := range ds {
+					if rid := rootIdentThroughCalls(d.rhs); rid != nil && loaded[objOf(info, rid)] {
+						if _, isSlice := o.Type().Underlying().(*types.Slice); isSlice {
+							loaded[o] = true
+						}
+					}
+				}
+			}
+			bad := ""
+			walkAll(fi.Decl.Body, func(x ast.Node) bool {
+				switch v := x.(type) {
+				case *ast.CallExpr:
+					if f := calleeFunc(info, v); f != nil && f.Pkg() != nil && (f.Pkg().Path() == "sort" || f.Pkg().Path() == "slices") && len(v.Args) > 0 {
+						if rid := rootIdentThroughCalls(v.Args[0]); rid != nil && loaded[objOf(info, rid)] {
+							bad = P.Pos(v) + " (in-place sort)"
+						}
+					}
+					// a helper that sorts or writes its slice parameter
+					if cf := P.Func(calleeKey(info, v)); cf != nil && cf.Decl.Body != nil && cf != fi {
+						for ai, a := range v.Args {
+							rid := rootIdentThroughCalls(a)
+							if rid == nil || !loaded[objOf(info, rid)] {
+								continue
+							}
+							if c.paramMutated(cf, ai) {
+								bad = P.Pos(v) + " (" + cf.Obj.Name() + " modifies its argument in place)"
+							}
+						}
+					}
+				case *ast.AssignStmt:
+					for _, l := range v.Lhs {
+						if _, isIdent := unparen(l).(*ast.Ident); isIdent {
+							continue
+						}
+						if rid := rootIdentThroughCalls(l); rid != nil && loaded[objOf(info, rid)] {
+							bad = P.Pos(v) + " (element write)"
+						}
+					}
+				}
+				return true
+			})
+			R.Check(bad == "", rule, fi.Key+" published index immutable", P.Pos(fi.Decl), "a loaded index is only read", "a published lazy index is modified in place at "+bad+": concurrent readers scan it while it changes")
 		}
 		for _, key := range []string{"internal/protolazy.atomicLoadIndex", "internal/protolazy.atomicStoreIndex"} {
 			if fi := c.need(rule, key); fi != nil {
@@ -463,4 +545,44 @@ func (c *Ctx) ruleGenLazyGetter(rule string, floor int) {
 			}
 		}
 	}
+}
+
+// paramMutated: the function sorts, or assigns to elements of, its i-th parameter.
+func (c *Ctx) paramMutated(fi *FuncInfo, idx int) bool {
+	info := fi.Info()
+	var po types.Object
+	i := 0
+	for _, f := range fi.Decl.Type.Params.List {
+		for _, nm := range f.Names {
+			if i == idx {
+				po = info.Defs[nm]
+			}
+			i++
+		}
+	}
+	if po == nil {
+		return false
+	}
+	mut := false
+	walkAll(fi.Decl.Body, func(x ast.Node) bool {
+		switch v := x.(type) {
+		case *ast.CallExpr:
+			if f := calleeFunc(info, v); f != nil && f.Pkg() != nil && (f.Pkg().Path() == "sort" || f.Pkg().Path() == "slices") && len(v.Args) > 0 {
+				if rid := rootIdentThroughCalls(v.Args[0]); rid != nil && objOf(info, rid) == po {
+					mut = true
+				}
+			}
+		case *ast.AssignStmt:
+			for _, l := range v.Lhs {
+				if _, isIdent := unparen(l).(*ast.Ident); isIdent {
+					continue
+				}
+				if rid := rootIdentThroughCalls(l); rid != nil && objOf(info, rid) == po {
+					mut = true
+				}
+			}
+		}
+		return true
+	})
+	return mut
 }
